@@ -65,6 +65,10 @@ def decode_opts(k):
     return o
 
 
+NO_FILTER_OPTS = [k for k in range(NOPT) if not any(decode_opts(k)[f] for f in (
+    "filter_nodes", "filter_sites", "filter_individuals", "filter_populations"))]
+
+
 def simplify_kwargs(opts, explicit):
     """Keyword arguments for the public API; defaults are omitted unless `explicit`."""
     kw = {}
@@ -402,6 +406,9 @@ def simplify_case(draw):
         spec = densify_mutations(draw, spec)
     mode, samples = draw(sample_list(spec))
     ks = draw(st.lists(st.integers(0, NOPT - 1), min_size=1, max_size=3))
+    if draw(st.integers(0, 3)) == 0:
+        # nothing filtered at all (one draw in four; a uniform draw gives it 1/16 of the time)
+        ks = [draw(st.sampled_from(NO_FILTER_OPTS))] + ks[:2]
     return dict(spec=spec, mode=mode, samples=samples, ks=ks, explicit=draw(st.booleans()),
                 via=draw(st.sampled_from(["ts", "tables"])), as_array=draw(st.booleans()),
                 prov=draw(st.booleans()))
@@ -433,6 +440,7 @@ def run_simplify(case, ctx):
         for name, v in opts.items():
             ctx.label("opt:" + name + "=" + str(v)[0], v != DEFAULTS[name])
         ctx.label("opt:all_default", k == 0)
+        ctx.label("opt:nothing_filtered", k in NO_FILTER_OPTS)
         try:
             res = check_simplify(ctx, tskit, spec, tables, samples, opts, explicit=case["explicit"],
                                  via=case["via"], as_array=case["as_array"], record_provenance=case["prov"])
@@ -687,7 +695,7 @@ SUBCHECKS = [
                      "individual_parent_cut": 0.03, "unary_kept": 0.07, "input_root_kept": 0.06,
                      "samples:empty": 0.02, "samples:single": 0.03, "samples:perm": 0.05,
                      "samples:any": 0.1, "via:tables": 0.15, "defaults_omitted": 0.25,
-                     "opt:all_default": 0.08, "opt:keep_unary=T": 0.2,
+                     "opt:all_default": 0.08, "opt:nothing_filtered": 0.2, "opt:keep_unary=T": 0.2,
                      "opt:keep_unary_in_individuals=T": 0.2, "opt:keep_input_roots=T": 0.2,
                      "opt:filter_nodes=F": 0.2, "opt:filter_sites=F": 0.2, "opt:filter_individuals=F": 0.2,
                      "opt:filter_populations=F": 0.2, "opt:update_sample_flags=F": 0.2,
